@@ -1,11 +1,13 @@
 ---- MODULE MC_RewardsV1 ----
 EXTENDS RewardsV1, Json
-CONSTANTS Depth, Totals, Devs, Leaders, Prots, Rpbs, Sels, FeesSet
+CONSTANTS Depth, Totals, Devs, Leaders, Prots, Rpbs, Sels, FeesSet, BlockSets, ConsSets
 LogAppend(h, r) == Append(h, r)
 LogLast(h, r) == <<r>>
 MCAddrs == <<[cls |-> "shard", sh |-> 1], [cls |-> "shard", sh |-> 2], [cls |-> "dsc", sh |-> 3], [cls |-> "meta", sh |-> 3]>>
 MCBlockFew  == {<<2, 1, 1>>, <<0, 2, 1>>}
 MCConsFew   == {<<2, 1, 2>>, <<1, 1, 1>>}
+MCBlockOne  == {<<2, 1, 1>>}
+MCConsOne   == {<<2, 1, 2>>}
 Node(sh, addr, ls, vs, vf, sel, fees) == [sh |-> sh, addr |-> addr, ls |-> ls, vs |-> vs, vf |-> vf, sel |-> sel, fees |-> fees]
 N1 == {Node(1, 1, ls, vs, vf, s, IF ls THEN f ELSE 0) : ls \in BOOLEAN, vs \in BOOLEAN, vf \in BOOLEAN, s \in Sels, f \in FeesSet}
 N2 == {Node(sh, a, FALSE, vs, vf, 1, 0) : sh \in {1, 2}, a \in {1, 3}, vs \in BOOLEAN, vf \in BOOLEAN}
@@ -14,7 +16,7 @@ MkIn(t, d, l, p, r, bl, co, ns, dsc, fx) ==
     [total |-> t, dev |-> d, leader |-> l, prot |-> p, rpb |-> r, nb |-> SumSeq(bl), blocks |-> bl, cons |-> co,
      nodes |-> ns, addrs |-> MCAddrs, dsc |-> dsc, fix1 |-> fx]
 MCInit ==
-    \E t \in Totals, d \in Devs, l \in Leaders, p \in Prots, r \in Rpbs, bl \in MCBlockFew, co \in MCConsFew,
+    \E t \in Totals, d \in Devs, l \in Leaders, p \in Prots, r \in Rpbs, bl \in BlockSets, co \in ConsSets,
        dsc \in BOOLEAN, fx \in BOOLEAN :
       \E a \in N1, b \in N2, c \in N3 :
         /\ in = MkIn(t, d, l, p, r, bl, co, <<a, b, c>>, dsc, fx)
